@@ -635,6 +635,8 @@ func callScript(h util.Uint160, method string, args ...any) []byte {
 	return w.Bytes()
 }
 
+const syncInterval = 4
+
 var alphabet = []byte{0x01, 0x02, 0x10, 0x12}
 
 // The limit family: keys that sit at the length limits of the stack they pass through.
@@ -855,6 +857,13 @@ func runCase(o *hx.Out, f *hx.Flags, k int, t *tb) {
 	}
 	o.Count(fmt.Sprintf("state-mode:%d", stMode))
 	// the node's database outlives the Blockchain object (restart / reset scenarios)
+	// state-sync class: the chain runs with state roots in headers and the state exchange extensions, no
+	// restart / reset scenario; at the end a fresh node is brought to the sync point by the real statesync
+	// module and must serve exactly the storage the state root of the sync point commits to
+	syncClass := stMode == 0 && !corpus && r.Chance(1, 4)
+	if syncClass {
+		o.Count("class:statesync")
+	}
 	// failing-flush schedule class: one write of the DB fails at a random flush with blocks waiting; on
 	// MemoryStore or on a disk backend (LevelDB in a temporary directory)
 	flushFail := (stMode != 2 && r.Chance(1, 3)) || corpus
@@ -877,6 +886,11 @@ func runCase(o *hx.Out, f *hx.Flags, k int, t *tb) {
 				c.Ledger.RemoveUntraceableBlocks = true
 			case 2:
 				c.Ledger.KeepOnlyLatestState = true
+			}
+			if syncClass {
+				c.StateRootInHeader = true
+				c.P2PStateExchangeExtensions = true
+				c.StateSyncInterval = syncInterval
 			}
 		}, st, false)
 		if run {
@@ -1129,6 +1143,19 @@ func runCase(o *hx.Out, f *hx.Flags, k int, t *tb) {
 		prev = recs[h].d
 	}
 	emitFinds(deployedAt)
+	if syncClass || corpus {
+		// twin keys: one differing half-byte, the same tail and the same value: the same extension+leaf
+		// subtree sits at two positions of the trie
+		w := io.NewBufBinWriter()
+		emit.AppCall(w.BinWriter, c.Hash, "put", callflag.All, []byte{0x31, 0x77, 0x77}, []byte{0x7a})
+		emit.AppCall(w.BinWriter, c.Hash, "put", callflag.All, []byte{0x32, 0x77, 0x77}, []byte{0x7a})
+		e.AddNewBlock(t, e.PrepareInvocation(t, w.Bytes(), []neotest.Signer{e.Validator}))
+		record()
+		h := bc.BlockHeight()
+		emitBatch(h, prev, recs[h].d)
+		emitFinds(h)
+		prev = recs[h].d
+	}
 
 	nBlocks := r.Range(8, 25)
 	live := map[string]bool{}
@@ -1495,7 +1522,7 @@ func runCase(o *hx.Out, f *hx.Flags, k int, t *tb) {
 		if b == failAt {
 			failedFlush()
 		}
-		if r.Chance(1, 3) {
+		if r.Chance(1, 3) && !syncClass { // with state roots in headers every root counts as validated
 			validatedProbe()
 		}
 		if b == nBlocks/2 || r.Chance(1, 6) || (corpus && b%3 == 0) {
@@ -1524,7 +1551,9 @@ func runCase(o *hx.Out, f *hx.Flags, k int, t *tb) {
 			o.Count("sroot")
 		}
 		o.Line("local", fmt.Sprintf("%d %s", sm.CurrentLocalHeight(), hex.EncodeToString(func() []byte { u := sm.CurrentLocalStateRoot(); return u[:] }())))
-		o.Line("vheight", fmt.Sprint(sm.CurrentValidatedHeight()))
+		if !syncClass {
+			o.Line("vheight", fmt.Sprint(sm.CurrentValidatedHeight()))
+		}
 		if rec := recs[top]; rec != nil && (sm.CurrentLocalHeight() != top || sm.CurrentLocalStateRoot() != rec.root) {
 			o.Fail(tag+"current-local", k, "the state module's current local root is (%d, %s), the chain is at %d with root %s", sm.CurrentLocalHeight(), sm.CurrentLocalStateRoot().StringLE(), top, rec.root.StringLE())
 		}
@@ -1535,6 +1564,11 @@ func runCase(o *hx.Out, f *hx.Flags, k int, t *tb) {
 		rb, _ := chain.NewSingleWithCustomConfigAndStore(t, func(c *config.Blockchain) {
 			if stMode == 1 {
 				c.Ledger.RemoveUntraceableBlocks = true
+			}
+			if syncClass {
+				c.StateRootInHeader = true
+				c.P2PStateExchangeExtensions = true
+				c.StateSyncInterval = syncInterval
 			}
 		}, storage.NewMemoryStore(), false)
 		go rb.Run()
@@ -1564,7 +1598,7 @@ func runCase(o *hx.Out, f *hx.Flags, k int, t *tb) {
 	// after a restart or a Reset(target) the node must show, through every API, exactly the storage
 	// its (new) top state root commits to; then the chain goes on with new blocks
 	scenario := 0
-	if stMode != 2 && !corpus {
+	if stMode != 2 && !corpus && !syncClass {
 		scenario = r.Weighted([]int{4, 3, 4})
 	}
 	switch scenario {
@@ -1948,5 +1982,8 @@ func runCase(o *hx.Out, f *hx.Flags, k int, t *tb) {
 				}
 			}
 		}
+	}
+	if syncClass {
+		syncedNode(o, k, t, bc, acc, recs, ids, finds, gets)
 	}
 }
